@@ -106,7 +106,17 @@ def r1_indentation_everywhere(ctx):
                 continue
             n += 1
             star = [norm(kw.value) for kw in c.keywords if kw.arg is None]
-            ctx.check("get_load_data_modality_kwargs()" in star, c,
+            # ... or both entries spelled out from that very table
+            from ..symres import Resolver as _R3
+            Rc = _R3(f)
+            spelled = {kw.arg: Rc.text(kw.value) for kw in c.keywords
+                       if kw.arg in ("modality", "data_classes_by_modality")}
+            explicit = spelled == {
+                "modality": "get_load_data_modality_kwargs()['modality']",
+                "data_classes_by_modality": "get_load_data_modality_kwargs()"
+                "['data_classes_by_modality']"}
+            ctx.check("get_load_data_modality_kwargs()" in star or explicit,
+                      c,
                       f"{m.name}.{q}: {cn or 'super().__init__'} gets the "
                       "modality kwargs",
                       f"{m.name}.{q} calls afmformats without "
@@ -154,8 +164,20 @@ def r1_indentation_everywhere(ctx):
     # load_group goes through += on an IndentationGroup
     lg = ctx.repo.mod("group").func("load_group")
     ctx.analysed(lg)
-    ok = any(isinstance(st, ast.AugAssign) and isinstance(st.op, ast.Add)
-             for st in walk_no_nested(lg, False)) and any(
+    added = any(isinstance(st, ast.AugAssign) and isinstance(st.op, ast.Add)
+                for st in walk_no_nested(lg, False))
+    # ... or an explicit loop `for x in data: grp.append(x)` (what += does)
+    for lp_ in walk_no_nested(lg, False):
+        if isinstance(lp_, ast.For) and isinstance(lp_.target, ast.Name) \
+                and len(lp_.body) == 1 and isinstance(
+                    lp_.body[0], ast.Expr) and isinstance(
+                    lp_.body[0].value, ast.Call) and isinstance(
+                    lp_.body[0].value.func, ast.Attribute) and \
+                lp_.body[0].value.func.attr == "append" and [
+                    norm(a) for a in lp_.body[0].value.args] == [
+                        lp_.target.id]:
+            added = True
+    ok = added and any(
         call_name(c) == "IndentationGroup" for c in calls_in(lg)) and any(
         call_name(c) == "load_data" for c in calls_in(lg))
     ctx.check(ok, lg, "load_group: IndentationGroup() += load_data(...)",
